@@ -82,12 +82,15 @@ def fn_spans(reg, units):
 def finish(prop, pdef, tier, seed, reg, kentries, kres, ventries, vres, wall, scratch, log):
     obligations = []  # dicts: id, backend, kind(complete|unbounded|bounded), status, unit, harness, time, cached, bounds, reason
     for e in kentries:
-        r = kres.get(e["harness"])
+        r = kres.get(e.get("id", e["harness"]))
         if r is None:
             continue
+        suffix = ("@" + e["id"].split("@", 1)[1]) if "@" in e.get("id", "") else ""
         for oid, st in r["obligations"].items():
+            if suffix and not oid.endswith(suffix) and not oid.startswith("K."):
+                oid = oid + suffix
             obligations.append({"id": oid, "backend": "kani/cbmc", "kind": e.get("kind", "complete"), "bounds": e.get("bounds"), "status": st, "unit": e["unit"],
-                                "via": e["harness"], "time_s": r.get("wall_s", 0), "max_rss_gb": r.get("max_rss_gb"), "cached": r.get("cached", False), "reason": r.get("reason", ""), "tail": r.get("tail", ""), "cmd": r.get("cmd", "")})
+                                "via": e.get("id", e["harness"]), "time_s": r.get("wall_s", 0), "max_rss_gb": r.get("max_rss_gb"), "cached": r.get("cached", False), "reason": r.get("reason", ""), "tail": r.get("tail", ""), "cmd": r.get("cmd", "")})
     for e in ventries:
         r = vres.get(e["id"])
         if r is None:
